@@ -75,6 +75,7 @@ func (f *File) Apply(filename string, src []byte) (_ []byte, retErr error) {
 		snap = snap.Diff(fout, cl)
 		cleanupFilePos(f.fset.File(fout.Pos()), cl, fout.Comments)
 		fout.Comments = dropEmptyComments(fout.Comments)
+		forgetEmptyComments(fout)
 	}
 
 	if retErr != nil {
@@ -118,6 +119,38 @@ func dropEmptyComments(groups []*ast.CommentGroup) []*ast.CommentGroup {
 		}
 	}
 	return kept
+}
+
+// forgetEmptyComments detaches the comment groups that cleanupFilePos emptied
+// from the nodes they document: a declaration that kept such a group as its
+// Doc makes the next change panic when it asks the node for its position.
+func forgetEmptyComments(f *ast.File) {
+	forget := func(groups ...**ast.CommentGroup) {
+		for _, cg := range groups {
+			if *cg != nil && len((*cg).List) == 0 {
+				*cg = nil
+			}
+		}
+	}
+	ast.Inspect(f, func(n ast.Node) bool {
+		switch n := n.(type) {
+		case *ast.File:
+			forget(&n.Doc)
+		case *ast.FuncDecl:
+			forget(&n.Doc)
+		case *ast.GenDecl:
+			forget(&n.Doc)
+		case *ast.Field:
+			forget(&n.Doc, &n.Comment)
+		case *ast.ImportSpec:
+			forget(&n.Doc, &n.Comment)
+		case *ast.ValueSpec:
+			forget(&n.Doc, &n.Comment)
+		case *ast.TypeSpec:
+			forget(&n.Doc, &n.Comment)
+		}
+		return true
+	})
 }
 
 func cleanupFilePos(tfile *token.File, cl engine.Changelog, comments []*ast.CommentGroup) {
